@@ -428,3 +428,10 @@ func (t *Table) HasUnique(cols ...string) bool {
 	}
 	return false
 }
+
+// Debugf prints to stderr when VERIF_DEBUG is set (development aid; never part of a verdict).
+func Debugf(format string, args ...any) {
+	if os.Getenv("VERIF_DEBUG") != "" {
+		fmt.Fprintf(os.Stderr, "DEBUG "+format+"\n", args...)
+	}
+}
